@@ -27,14 +27,14 @@ PROPS = {
     },
     "C19": {
         "suites": [("pure", "throttle"), ("gw", "throttle"), ("gw", "reset")],
-        "theorems_carry": "running <= limit, FIFO start order, running = started - done, waiting implies all slots taken, every Done starts the next waiting callback, Done at 0 is the only panic",
-        "correspondence_only": "one Done per governed request at system level (gateway-level runs)",
+        "theorems_carry": "running <= limit, FIFO start order, running = started - done, waiting implies all slots taken, every Done starts the next waiting callback, Done at 0 is the only panic; liveness: as many answers as started requests in any order leave nothing waiting, nothing running and everything added started in order (all_governed_eventually_sent), and from every state the invariant allows running+waiting answers reach that point without a panic (answers_drain_the_throttle); the throttle of the gateway model is this throttle, operation by operation (gateway_throttle_is_this_throttle)",
+        "correspondence_only": "one Done per governed request at system level: gateway-level runs with monitors (bursts of resets and references against the limit, overlapping resets, failing answers, leavers; at quiescence nothing waits for a slot and no cached resource waits for a get that was never sent)",
         "assumptions": ["Done's `go cb()` is modelled as an immediate start"],
     },
 
     "C01": {
         "suites": [("gw", "refs"), ("gw", "mixed"), ("gw", "query"), ("gw", "reset"), ("pure", "lcs"), ("pure", "mdiff")],
-        "theorems_carry": "the version-stamp mechanism: a subscriber added at any point that reads (value, version) at any later point and processes everything since ends at the resource's final value and version (snapshot_replay, for every stream and every pair of points); the gate and the cache's stamp/bump are the gateway model's own functions; legacy encoding of the four value kinds",
+        "theorems_carry": "the version-stamp mechanism: a subscriber added at any point that reads (value, version) at any later point and processes everything since ends at the resource's final value and version (snapshot_replay, for every stream and every pair of points), hence any number of clients sharing one cached resource, each added and served at its own points of the stream, end with the same value and version (all_sharers_converge); the gate and the cache's stamp/bump are the gateway model's own functions; legacy encoding of the four value kinds",
         "correspondence_only": "the composition over the whole gateway (every client copy equals the announced state at quiescence): lockstep of the Lean gateway model against the real gateway on every history, plus the reference-client/announced-state monitor. Known findings D1, D17 make the full statement false of the code.",
         "assumptions": ["service contract: an answer reflects every event published before it (the simulated service answers from its state at answer time)", "Go map iteration order is not modelled: histories avoid one connection holding two aliases of one cached resource; a disagreement must persist over 5 runs", "histories with throttles are run with monitors only (throttle slot order is a real race)"],
     },
@@ -89,7 +89,7 @@ PROPS = {
     "C11": {
         "suites": [("gw", "churn"), ("pure", "blocked"), ("gw", "throttle")],
         "theorems_carry": "for every gateway state: closing a connection (the fold of closeSub the model runs as wsConn.dispose) marks it, empties its map, takes it out of the fan-out, disposes all its subscriptions, leaves every other connection untouched, changes no cache entry except for one unsubscribe item per subscription that held one of its resources, issues no request (disconnect_releases_exactly); the release item removes exactly that subscriber from exactly that resource and gives back one use (release_item_gives_back_one_use); closing twice is closing once; afterwards every item offered to the connection is refused and leaves the state unchanged (disposed_is_silent)",
-        "correspondence_only": "that the real dispose is the modelled one at every moment (lockstep with disconnects at random steps, blocked writer, throttled re-checks) + drain monitors. Known findings D4, D19.",
+        "correspondence_only": "that the real dispose is the modelled one at every moment (lockstep with disconnects at random steps, blocked writer, throttled re-checks, a holder leaving while its reference throttle still has gets waiting) + drain monitors incl. no cached resource left waiting for a get that was never sent. Known finding D19 (D4 repaired by c027952).",
         "assumptions": [],
     },
     "C13": {
@@ -115,7 +115,7 @@ PROPS = {
     "C20": {
         "suites": [("pure", "svc")],
         "theorems_carry": "the service shell's state machine: no connection unless running, Stop idempotent, the stop value is the cause and is sent exactly once per Stop for every operation sequence, restart possible, well-formedness invariant",
-        "correspondence_only": "socket closure, HTTP 503 after the fault, stop channel value, bounded duration and restart on the real Service (words over start/stop/connection-loss/connect/http with idle client sockets); Stop in the middle of gateway work (pending requests, evictions) is exercised at the end of every gw history only. Known finding D20.",
+        "correspondence_only": "socket closure, HTTP 503 after the fault, stop channel value, bounded duration and restart on the real Service (words over start/stop/connection-loss/connect/http with idle client sockets); Stop in the middle of gateway work (pending requests, evictions) is exercised at the end of every gw history only; a messaging client whose Close does not return (Stop's own 3 s bound, then restart). D20 (socket surviving Stop during the upgrade) was repaired by 6a0306a and its case stays in the suite.",
         "assumptions": ["partial: socket closure, goroutine exit and wall-clock bounds are runtime behaviour the model cannot exhibit", "Stop/Start are called sequentially by the harness"],
     },
     "C18": {
